@@ -124,6 +124,11 @@ Fixpoint dedup (l : list text) (seen : list text) : list text :=
   | [] => []
   | x :: l' => if memb teqb x seen then dedup l' seen else x :: dedup l' (x :: seen)
   end.
+(* distinct values through LinkedHashSet::insert: a repeated value moves to
+   the back, so the listing is ordered by LAST occurrence *)
+Definition tset_insert (l : list text) (x : text) : list text :=
+  if memb teqb x l then filter (fun y => negb (teqb y x)) l ++ [x] else l ++ [x].
+Definition distinct_last (l : list text) : list text := fold_left tset_insert l [].
 (* None = index out of bounds *)
 Fixpoint column (idx : nat) (l : list rule) : option (list text) :=
   match l with
@@ -135,7 +140,7 @@ Fixpoint column (idx : nat) (l : list rule) : option (list text) :=
   end.
 Definition m_values (md : model) (sec pt : text) (idx : nat) : option (list text) :=
   match column idx (m_get_policy md sec pt) with
-  | Some c => Some (dedup c [])
+  | Some c => Some (distinct_last c)
   | None => None
   end.
 Definition m_get_all (md : model) (sec : text) : list rule :=
@@ -984,12 +989,12 @@ Section Queries.
     end.
 End Queries.
 
-(* what a fresh load from the adapter would produce for (sec, ptype): the
-   "reload view" of C09, computed without touching the enforcer *)
-Definition reload_view (s : estate) : model :=
-  match ad_load (match e_adapter s with AScripted i _ => i | a => a end)
-                (m_clear_policy (e_model s)) with
-  | (_, md, _) => md
+(* the "reload view" of C09: Adapter::load_policy into a scratch copy of the
+   model (emptied). It goes through the adapter, so it consumes a scripted
+   response and resets the adapter's filtered mark like any load. *)
+Definition reload_view (s : estate) : estate * model * lres :=
+  match ad_load (e_adapter s) (m_clear_policy (e_model s)) with
+  | (ad, md, r) => (upd_adapter s ad, md, r)
   end.
 
 Definition run_ops (s : estate) (ops : list op) : estate :=
